@@ -189,5 +189,7 @@ c04_8bit!(Aminstari8JonesDeg1Clip, Family::AMinStar, false, c04_table__Aminstari
 c04_8bit!(Aminstari8PartialHardLimitDeg1Clip, Family::AMinStar, true, c04_table__Aminstari8PartialHardLimitDeg1Clip, c04_check2__Aminstari8PartialHardLimitDeg1Clip, c04_check3__Aminstari8PartialHardLimitDeg1Clip, c04_check4__Aminstari8PartialHardLimitDeg1Clip);
 c04_8bit!(Aminstari8JonesPartialHardLimitDeg1Clip, Family::AMinStar, true, c04_table__Aminstari8JonesPartialHardLimitDeg1Clip, c04_check2__Aminstari8JonesPartialHardLimitDeg1Clip, c04_check3__Aminstari8JonesPartialHardLimitDeg1Clip, c04_check4__Aminstari8JonesPartialHardLimitDeg1Clip);
 
+include!("c04_more.rs");
+
 // a concrete playback test printed by Kani for a failing harness of this module is replayed from here
 include!(concat!(env!("VERIF_KANI_GEN"), "/playback_c04.rs"));
